@@ -368,3 +368,13 @@ def make_store_class():
             return S.saved[(self.ctx.pipeline_id, node_id)]
 
     return RecordingStore
+
+
+class NotAClass:
+    """An object that is not a class, used as a node in C16 defect injection."""
+
+    def __init__(self, n):
+        self.n = n
+
+    def process(self, **kwargs):
+        return None
